@@ -11,6 +11,7 @@ import (
 	"fmt"
 	"github.com/openconfig/goyang/pkg/yang"
 	"github.com/openconfig/goyang/pkg/yangentry"
+	"hash/fnv"
 	"os"
 	"os/exec"
 	"path/filepath"
@@ -211,6 +212,19 @@ func scenarios() []scenario {
 		dump.File{Name: "s.yang", Text: `submodule s { belongs-to m { prefix m; } identity base-id; identity sd { base base-id; } leaf sl { type identityref { base base-id; } } }`},
 		dump.File{Name: "x.yang", Text: `module x { ` + H("x") + ` import m { prefix m; revision-date 2020-01-01; } identity y { base m:base-id; } identity y2 { base m:sd; } leaf r { type identityref { base m:base-id; } } }`},
 		dump.File{Name: "z.yang", Text: `module z { ` + H("z") + ` import m { prefix m; } identity w { base m:sd; } leaf r { type identityref { base m:base-id; } } }`})
+	// modules that are not loaded but lie on the search path (file names behind "PATH/"): a
+	// processing run fetches them when it meets the imports, in an order of its own choosing
+	add("fetched-two-revisions-pinned-and-not", nil,
+		dump.File{Name: "fd.yang", Text: `module fd { ` + H("fd") + ` import fc { prefix fc; } augment /fc:c { leaf y { type string; } } identity d { base fc:i; } }`},
+		dump.File{Name: "fe.yang", Text: `module fe { ` + H("fe") + ` import fc { prefix fc; revision-date 2020-01-01; } leaf r { type identityref { base fc:i; } } }`},
+		dump.File{Name: "PATH/fc.yang", Text: `module fc { ` + H("fc") + ` revision 2021-06-01; container c { leaf x { type string; } } identity i; }`},
+		dump.File{Name: "PATH/fc@2020-01-01.yang", Text: `module fc { ` + H("fc") + ` revision 2020-01-01; container c { leaf old { type string; } } identity i; identity j { base i; } }`})
+	add("fetched-imports-and-includes", nil,
+		dump.File{Name: "fa.yang", Text: `module fa { ` + H("fa") + ` import fb { prefix fb; } import fg { prefix fg; } leaf l { type fb:t; } container c { uses fb:g; uses fg:g; } }`},
+		dump.File{Name: "fh.yang", Text: `module fh { ` + H("fh") + ` import fg { prefix fg; } import fb { prefix fb; } identity h { base fg:i; } augment /fb:sc { leaf a { type fg:t; } } }`},
+		dump.File{Name: "PATH/fb.yang", Text: `module fb { ` + H("fb") + ` include fbsub; import fg { prefix fg; } typedef t { type st; } grouping g { leaf gl { type t; } leaf gi { type identityref { base fg:i; } } } }`},
+		dump.File{Name: "PATH/fbsub.yang", Text: `submodule fbsub { belongs-to fb { prefix fb; } typedef st { type int8 { range "1..9"; } } container sc { leaf sl { type st; } } }`},
+		dump.File{Name: "PATH/fg.yang", Text: `module fg { ` + H("fg") + ` typedef t { type string; } identity i; grouping g { leaf fgl { type t; } } }`})
 	add("uses-and-typedef-cross", nil, a, dump.File{Name: "g.yang", Text: `module g { ` + H("g") + ` typedef t { type int8 { range "1..9"; } } grouping gg { leaf gl { type t; } container gc { leaf gd { type t; default 3; } } } }`},
 		dump.File{Name: "u.yang", Text: `module u { ` + H("u") + ` import g { prefix g; } import a { prefix a; } typedef t { type string; } container k1 { uses g:gg; } container k2 { uses g:gg; leaf own { type t; } } augment /a:c { uses g:gg; } deviation /u:k1/u:gl { deviate replace { type string; } } }`})
 	// pairwise combinations of scenarios that extend module a with differently named modules
@@ -333,12 +347,33 @@ func yangentrySummary(fs []dump.File) string {
 func runOnce(files []dump.File, ord []int, x *explore.X) (summary, listProblem string) {
 	order.Install(func(n int, site string) int { return x.Choose(n, site) })
 	defer order.Install(nil)
-	var fs []dump.File
+	var fs, onPath []dump.File
 	for _, i := range ord {
+		if strings.HasPrefix(files[i].Name, "PATH/") {
+			onPath = append(onPath, files[i])
+			continue
+		}
 		fs = append(fs, files[i])
 	}
+	withPath := func(ms *yang.Modules) {}
+	if len(onPath) > 0 {
+		// the same directory for every execution of a scenario (its name shows in positions)
+		sort.Slice(onPath, func(i, j int) bool { return onPath[i].Name < onPath[j].Name })
+		h := fnv.New32a()
+		for _, f := range onPath {
+			h.Write([]byte(f.Name + f.Text))
+		}
+		dir := filepath.Join(os.Getenv("VERIF_SCRATCH_DIR"), fmt.Sprintf("c05path-%x", h.Sum32()))
+		if _, err := os.Stat(dir); err != nil {
+			os.MkdirAll(dir, 0o755)
+			for _, f := range onPath {
+				os.WriteFile(filepath.Join(dir, strings.TrimPrefix(f.Name, "PATH/")), []byte(f.Text), 0o644)
+			}
+		}
+		withPath = func(ms *yang.Modules) { ms.AddPath(dir) }
+	}
 	pan, pt := core.Guard(func() {
-		r := dump.Run(fs, dump.Options{Positions: true})
+		r := dump.Run(fs, dump.Options{Positions: true}, withPath)
 		summary = r.Summary()
 		listProblem = errorListOK(r.ProcErrs)
 		lastYangentry = ""
@@ -351,7 +386,7 @@ func runOnce(files []dump.File, ord []int, x *explore.X) (summary, listProblem s
 						ms.ParseOptions.DeviateOptions.IgnoreDeviateNotSupported = true
 						ms.ParseOptions.StoreUses = true
 						ms.ParseOptions.IgnoreSubmoduleCircularDependencies = true
-					})
+					}, withPath)
 					lastYangentry += "\nwith the parse options:\n" + ro.Summary()
 					if lp := errorListOK(ro.ProcErrs); lp != "" && listProblem == "" {
 						listProblem = lp
@@ -409,6 +444,7 @@ func run(c *core.Ctx) {
 	ydir := filepath.Join(os.Getenv("VERIF_SCRATCH_DIR"), fmt.Sprintf("yangentry-%d", si))
 	os.MkdirAll(ydir, 0o755)
 	for _, f := range s.files {
+		os.MkdirAll(filepath.Dir(filepath.Join(ydir, f.Name)), 0o755)
 		os.WriteFile(filepath.Join(ydir, f.Name), []byte(f.Text), 0o644)
 	}
 	defer os.RemoveAll(ydir)
@@ -512,7 +548,9 @@ func runCLI(c *core.Ctx, sc []scenario, format string) {
 		var paths []string
 		for _, f := range s.files {
 			p := filepath.Join(dir, f.Name)
-			os.WriteFile(p, []byte(f.Text), 0o644)
+			os.MkdirAll(filepath.Dir(p), 0o755)
+			os.MkdirAll(filepath.Dir(p), 0o755)
+		os.WriteFile(p, []byte(f.Text), 0o644)
 			paths = append(paths, p)
 		}
 		caseNo, run := c.Begin()
@@ -595,6 +633,7 @@ func replay(tier string, raw json.RawMessage) (bool, string, string) {
 	ydir, _ := os.MkdirTemp(os.Getenv("VERIF_SCRATCH_DIR"), "yangentry-replay")
 	defer os.RemoveAll(ydir)
 	for _, f := range in.Files {
+		os.MkdirAll(filepath.Dir(filepath.Join(ydir, f.Name)), 0o755)
 		os.WriteFile(filepath.Join(ydir, f.Name), []byte(f.Text), 0o644)
 	}
 	first := func(ord []int) string {
@@ -638,6 +677,7 @@ func replayCLI(in Input) (bool, string, string) {
 	var paths []string
 	for _, f := range in.Files {
 		p := filepath.Join(dir, f.Name)
+		os.MkdirAll(filepath.Dir(p), 0o755)
 		os.WriteFile(p, []byte(f.Text), 0o644)
 		paths = append(paths, p)
 	}
